@@ -11,15 +11,15 @@ import (
 
 // FuncResult is what verification of one function produced.
 type FuncResult struct {
-	Key       string
-	Obls      []*Oblig
-	Abstr     []string
-	Externs   []string
-	Assumed   []string
-	Inlined   []string
-	Err       string // OUT-OF-SUBSET or contract errors
-	Trusted   bool
-	NumInstrs int
+	Key        string
+	Obls       []*Oblig
+	Abstr      []string
+	Externs    []string
+	Assumed    []string
+	Inlined    []string
+	Err        string // OUT-OF-SUBSET or contract errors
+	Trusted    bool
+	NumInstrs  int
 	Candidates int // inferred loop-invariant obligations discharged (auxiliary)
 	CandTime   float64
 	Dropped    []string
@@ -402,7 +402,6 @@ func verifyLemma(prog *Program, ctr *Contracts, name string) (res *FuncResult) {
 }
 
 var _ = ssa.GlobalDebug
-
 
 // postLoopCtx: in postconditions #key(j) refers to the enumeration of the
 // function's map-range loop (when there is exactly one).
